@@ -108,6 +108,11 @@ pub trait Runtime: Send + Sync {
     fn controls_current_thread(&self) -> bool;
     /// Start `body` on a new controlled thread and return its id.
     fn spawn(&self, name: Option<String>, body: Box<dyn FnOnce() + Send + 'static>) -> usize;
+    /// May this `compare_exchange_weak` fail spuriously (as it may on LL/SC hardware)? Asked on
+    /// controlled threads only; a runtime that enumerates the answers explores both outcomes.
+    fn spurious_failure(&self) -> bool {
+        false
+    }
 }
 
 static RUNTIME: OnceLock<&'static dyn Runtime> = OnceLock::new();
@@ -245,8 +250,9 @@ pub mod sync {
                         r
                     }
 
-                    /// Under a runtime this never fails spuriously (it is the strong
-                    /// compare-exchange), so that executions are reproducible.
+                    /// On uncontrolled threads this is the strong compare-exchange. On a
+                    /// controlled thread the runtime decides (reproducibly) whether the
+                    /// operation fails spuriously, which the weak form is allowed to do.
                     #[track_caller]
                     pub fn compare_exchange_weak(
                         &self,
@@ -255,6 +261,16 @@ pub mod sync {
                         success: Ordering,
                         failure: Ordering,
                     ) -> Result<$t, $t> {
+                        if let Some(rt) = super::super::runtime() {
+                            if rt.controls_current_thread() && rt.spurious_failure() {
+                                // a spurious failure is a load that happened to see `current`
+                                let loc = Location::caller();
+                                let go = point(OpKind::AtomicCas, self.addr(), Some(success), Wait::No, loc);
+                                let v = self.0.load(failure);
+                                done(go, OpKind::AtomicLoad, self.addr(), Some(failure), false, loc);
+                                return Err(v);
+                            }
+                        }
                         self.compare_exchange(current, new, success, failure)
                     }
 
